@@ -117,3 +117,24 @@ PROPS["C03"] = dict(
     ],
     assumptions=COMMON_ASSUMPTIONS + ["difficulty(anchor) x stability_threshold < 2^128", "stable height + tree height + 2^20 < 2^32"],
 )
+
+PROPS["C13"] = dict(
+    verus_units=["core"],
+    technique="Verus contracts on request selection, reply handling (slice), single-flight guard, reset and response processing, with message-boundary invariant wf_sync",
+    level_text="unbounded deductive proof, per message, that: the next request is None / follow-up k / an initial request naming the anchor and every other "
+               "unstable block exactly as the stored reply dictates; a reply is folded into the stored state as the statement says (reject discards, partial "
+               "starts at page 0, page k+1 appended bit-identically, complete exactly at the announced page count); the guard is handed out iff none is alive; "
+               "processing leaves a non-complete reply untouched and consumes a complete one exactly once; wf_sync is preserved by every step",
+    level_note="heartbeat()/maybe_fetch_blocks() are async fns (outside both tools): phase order, the guard living across the await, liveness "
+               "('eventually applied') and the interleaving quantifier are NOT decided; replies are assumed to conform to the request in flight (else the repo traps)",
+    explanation="the closure after the await is lifted as a statement slice (R8); with_state_mut closures are made state-passing (R7).",
+    unverified_links=[
+        "async fn heartbeat / maybe_fetch_blocks: phase order ingest -> fetch -> process, guard lifetime across the await, call_get_successors",
+        "liveness: 'once the source answers normally every offered valid block is eventually applied'",
+        "upgrades (pre/post_upgrade call reset_syncing_state, which IS verified; serialisation is not)",
+    ],
+    assumptions=COMMON_ASSUMPTIONS + [
+        "a reply conforms to the request in flight (complete/partial answer initial requests, a follow-up page answers a follow-up request, a partial reply announces >= 1 follow-up)",
+        "statistics counters are below 2^63; replies hold < 2^32 blocks and < 2^33 bytes",
+    ],
+)
